@@ -154,7 +154,13 @@ def gen_str(rnd):
                 c = 0xE000
             out.append(chr(c))
         return "".join(out)
-    return "x" * rnd.choice([255, 256, 257, 1000])
+    n = rnd.choice([127, 128, 255, 256, 257, 1000, 65535, 65536, 65537])
+    if n > 1000 and rnd.random() < 0.8:
+        n = rnd.choice([255, 256])
+    # byte length exactly at the boundary, with 1-, 2- or 3-byte characters
+    ch = rnd.choice(["x", "x", "é", "日"])
+    return ch * (n // len(ch.encode("utf-8"))) + "y" * (
+        n % len(ch.encode("utf-8")))
 
 
 def gen_value(rnd, t, pool, hashable=False, maxlen=4):
@@ -175,6 +181,9 @@ def gen_value(rnd, t, pool, hashable=False, maxlen=4):
     if name == "Offset":
         return gt.Offset(pool.pick(rnd), gen_int(rnd, "uint64_t"))
     n = rnd.choice([0, 1, 1, 2, 2, 3, maxlen])
+    if name in ("sequence", "set", "mapping") and not kids[0][1] and \
+            rnd.random() < 0.01:
+        n = rnd.choice([255, 256, 257])  # element counts at a byte boundary
     if name == "sequence":
         return [gen_value(rnd, kids[0], pool, False, maxlen)
                 for _ in range(n)]
